@@ -110,6 +110,8 @@ func c13Key(next bool, bm []uint64, i, e int) string {
 func genC13(g *Gen) {
 	// sessions on one held slice first (c13w.go)
 	genC13Sessions(g)
+	// state that only big bitmaps trigger: in-place updates, re-allocation, ranges > 2^23 bits (c13w.go)
+	genC13Big(g)
 
 	one := func(bm []uint64, i, e int, bucket string) {
 		n := 64 * len(bm)
